@@ -230,6 +230,18 @@ func (a *Analysis) Propagate() {
 							args = append(args, cc.Value)
 						}
 						args = append(args, cc.Args...)
+						// a standard-library wrapper around a destination (bufio.NewWriter(w),
+						// io.MultiWriter(w, ...), gzip.NewWriter(w)): what it returns writes to
+						// the destination, possibly later (Flush, Close)
+						if cv, ok := in.(*ssa.Call); ok && !cc.IsInvoke() {
+							if sc := cc.StaticCallee(); sc != nil && !a.P.InModule(sc) && stdlibWriterWrappers[prov.CalleeName(cc)] {
+								for _, av := range args {
+									if a.D[av] {
+										mark(cv)
+									}
+								}
+							}
+						}
 						for _, cal := range a.P.ModuleCallees(a.CG, ci) {
 							if !a.Scope[cal] {
 								continue
@@ -555,4 +567,12 @@ func (a *Analysis) examinedOnAllPaths(fn *ssa.Function, call *ssa.Call, ev ssa.V
 		}
 	}
 	return ""
+}
+
+// stdlibWriterWrappers: constructors whose result forwards writes to the
+// writer passed in.
+var stdlibWriterWrappers = map[string]bool{
+	"bufio.NewWriter": true, "bufio.NewWriterSize": true, "bufio.NewReadWriter": true,
+	"io.MultiWriter": true, "gzip.NewWriter": true, "gzip.NewWriterLevel": true,
+	"zlib.NewWriter": true, "flate.NewWriter": true, "hex.NewEncoder": true, "base64.NewEncoder": true,
 }
